@@ -934,6 +934,10 @@ impl<W: InnerWriterTrait> ArchiveWriter<'_, W> {
         if self.files_info.contains_key(filename) {
             return Err(Error::DuplicateFilename);
         }
+        // Refuse a too long name before anything is written or registered
+        if filename.len() as u64 > FILENAME_MAX_SIZE {
+            return Err(Error::FilenameTooLong);
+        }
 
         // Create ID for this file
         let id = self.next_id;
